@@ -1,9 +1,9 @@
 /-
 C03 — Jacobian, gradient and higher derivative functions are the true derivatives.
 
-`jacobianEqn`, `gradEqn`, `diffJacobianEqn`, `gradJacobianEqn`, `transitionJacobian/Mean/Var`
+`jacobianEqn`, `gradEqn`, `diffJacobianEqn`, `gradJacobianEqn`, `gradGradEqn`, `transitionJacobian/Mean/Var`
 (Pygom/Model.lean) are the loops of `get_jacobian_eqn`, `get_grad_eqn`, `get_diff_jacobian_eqn`,
-`get_grad_jacobian_eqn`, `get_TransitionJacobian/Mean/Var` with the verified `Expr.diff` in the place
+`get_grad_jacobian_eqn`, `get_grad_grad_eqn`, `get_TransitionJacobian/Mean/Var` with the verified `Expr.diff` in the place
 of `sympy.diff` (sympy's diff is translation-validated against it on every generated model of every
 run).  "Away from singularities of the rates" is the explicit hypothesis `defined ρ`.
 -/
@@ -46,6 +46,14 @@ theorem gradJacobian_entry (states params : List String) (ode : List Expr) (k i 
   rw [getElem?_flatMap_blocks params _ ode.length (by intro a _; simp) k i hi]
   simp [hk, hi, hj]
 
+/-- row `i*nP + j`, column `k` of the parameter-parameter second-derivative matrix is `∂/∂θ_k (∂f_i/∂θ_j)` -/
+theorem gradGrad_entry (params : List String) (ode : List Expr) (i j k : Nat)
+    (hi : i < ode.length) (hj : j < params.length) (hk : k < params.length) :
+    mat2 (gradGradEqn params ode) (i * params.length + j) k = diff params[k] (diff params[j] ode[i]) := by
+  unfold mat2 gradGradEqn
+  rw [getElem?_flatMap_blocks ode _ params.length (by intro a _; simp) i j hj]
+  simp [hi, hj, hk]
+
 /-! ### the entries are the true derivatives -/
 
 /-- **State Jacobian.** -/
@@ -80,6 +88,16 @@ theorem grad_jacobian_is_mixed_derivative (ρ : String → ℝ) (states params :
     HasDerivAt (fun x => evalR (Function.update ρ states[j] x) (mat2 (gradEqn params ode) i k))
       (evalR ρ (mat2 (gradJacobianEqn states params ode) (k * ode.length + i) j)) (ρ states[j]) := by
   rw [gradJacobian_entry states params ode k i j hk hi hj, grad_entry params ode i k hi hk]
+  exact hasDerivAt_diff _ ρ _ (defined_diff _ ρ _ hdef)
+
+/-- **Second parameter derivatives** (`grad_grad`): entry `(i*nP+j, k)` is the derivative in `θ_k` of the function
+`∂f_i/∂θ_j` (itself the true first derivative by `grad_is_derivative`). -/
+theorem grad_grad_is_second_derivative (ρ : String → ℝ) (params : List String) (ode : List Expr)
+    (i j k : Nat) (hi : i < ode.length) (hj : j < params.length) (hk : k < params.length)
+    (hdef : defined ρ ode[i]) :
+    HasDerivAt (fun x => evalR (Function.update ρ params[k] x) (mat2 (gradEqn params ode) i j))
+      (evalR ρ (mat2 (gradGradEqn params ode) (i * params.length + j) k)) (ρ params[k]) := by
+  rw [gradGrad_entry params ode i j k hi hj hk, grad_entry params ode i j hi hj]
   exact hasDerivAt_diff _ ρ _ (defined_diff _ ρ _ hdef)
 
 /-! ### definedness of the assembled right-hand side follows from that of its ingredients -/
@@ -197,6 +215,12 @@ theorem transition_var_def (ρ : String → ℝ) (F : List (List Expr)) (rates :
 example : defined (fun _ => 1) (.mul (.mul (.var "beta") (.var "S")) (.var "I")) := ⟨⟨trivial, trivial⟩, trivial⟩
 
 example : mat2 (jacobianEqn ["S", "I"] [.mul (.var "b") (.var "S"), .var "I"]) 0 0 = .var "b" := by
+  decide
+
+/-- the `grad_grad` layout distinguishes `i*nP+j` from `j*nS+i`: two equations, three parameters, entry
+(state 1, parameters 2 and 0) sits in row `1*3+2 = 5`, column `0` -/
+example : mat2 (gradGradEqn ["a", "b", "c"] [.var "S", .mul (.mul (.var "a") (.var "c")) (.var "S")]) 5 0
+    = diff "a" (diff "c" (.mul (.mul (.var "a") (.var "c")) (.var "S"))) := by
   decide
 
 end Pygom.C03
